@@ -220,6 +220,48 @@ type kpath struct {
 func gen(t *rapid.T) Case        { return genWith(t, &profGeneral) }
 func genModules(t *rapid.T) Case { return genWith(t, &profModules) }
 
+// genShadowed scripts the histories the random mix rarely reaches: a module bound in an outer scope, a
+// plain value (or nothing) of the same name in a scope between, members of the module that are plain
+// values, nil scope pointers or modules of their own - then path lookups of length 1..3 from the scopes
+// below, followed by a short random tail of defines / deletes / lookups.
+func genShadowed(t *rapid.T) Case {
+	c := Case{RootExt: genExt(t)}
+	name := rapid.SampledFrom([]string{"m", "a", "b"}).Draw(t, "modname")
+	member := rapid.SampledFrom([]string{"n", "a", "m"}).Draw(t, "member")
+	c.Ops = append(c.Ops, Op{Op: "NewModule", S: 0, Name: name}) // scope 1
+	switch rapid.IntRange(0, 3).Draw(t, "memberkind") {
+	case 0:
+		c.Ops = append(c.Ops, Op{Op: "Define", S: 1, Name: member, V: &Val{K: "nilenv"}})
+	case 1:
+		c.Ops = append(c.Ops, Op{Op: "Define", S: 1, Name: member, V: &Val{K: "int", N: 7}})
+	case 2:
+		c.Ops = append(c.Ops, Op{Op: "NewModule", S: 1, Name: member})
+	}
+	c.Ops = append(c.Ops, Op{Op: "NewEnv", S: 0})
+	mid := len(c.Ops) // guess of the scope number: the oracle does not depend on it
+	_ = mid
+	if rapid.IntRange(0, 9).Draw(t, "shadow?") < 7 {
+		v := &Val{K: rapid.SampledFrom([]string{"int", "str", "nil", "nilenv"}).Draw(t, "shadowkind"), N: 5}
+		c.Ops = append(c.Ops, Op{Op: "Define", S: -1, Name: name, V: v}) // S -1: the newest scope
+	}
+	c.Ops = append(c.Ops, Op{Op: "NewEnv", S: -1})
+	paths := [][]string{{name}, {name, member}, {name, member, "x"}, {name, "zz"}, {member}}
+	for i := rapid.IntRange(2, 5).Draw(t, "nlook"); i > 0; i-- {
+		c.Ops = append(c.Ops, Op{Op: "GetEnvFromPath", S: -rapid.IntRange(1, 2).Draw(t, "from"), Path: paths[rapid.IntRange(0, len(paths)-1).Draw(t, "path")]})
+	}
+	for i := rapid.IntRange(0, 4).Draw(t, "tail"); i > 0; i-- {
+		switch rapid.IntRange(0, 3).Draw(t, "tailop") {
+		case 0:
+			c.Ops = append(c.Ops, Op{Op: "Delete", S: -rapid.IntRange(1, 3).Draw(t, "ts"), Name: name})
+		case 1:
+			c.Ops = append(c.Ops, Op{Op: "Define", S: -rapid.IntRange(1, 3).Draw(t, "ts"), Name: name, V: &Val{K: "int", N: 9}})
+		default:
+			c.Ops = append(c.Ops, Op{Op: "GetEnvFromPath", S: -rapid.IntRange(1, 3).Draw(t, "ts"), Path: paths[rapid.IntRange(0, len(paths)-1).Draw(t, "path")]})
+		}
+	}
+	return c
+}
+
 func genWith(t *rapid.T, pr *profile) Case {
 	c := Case{RootExt: genExt(t)}
 	n := rapid.SampledFrom(histLens).Draw(t, "n")
@@ -428,6 +470,10 @@ func (r *run) value(v *Val, valueForm bool) (interface{}, reflect.Value, mval) {
 		n := len(r.live)
 		j := ((v.N % n) + n) % n
 		return r.live[j], reflect.ValueOf(r.live[j]), mval{k: 'e', env: r.nodes[j]}
+	case "nilenv":
+		// a module slot a host cleared without deleting it: a typed nil scope pointer
+		var ne *env.Env
+		return ne, reflect.ValueOf(ne), mval{k: 'e'}
 	}
 	// nil: Define(name, nil) binds env.NilValue; whether that is addressable is not stated
 	return nil, env.NilValue, mval{k: 'n', addr: -1}
@@ -1059,6 +1105,8 @@ func TestC12(t *testing.T) {
 	defer c.Finish()
 	c.Rule("histories of 1..30 env API calls (Define/DefineValue/DefineGlobal[Value]/Set[Value]/Get[Value]/Addr/Delete/DeleteGlobal/DefineType/DefineReflectType/DefineGlobal[Reflect]Type/Type/Get{Value,Type}Symbols/NewEnv/env.NewEnv/NewModule/GetEnvFromPath(len 0..3)/Copy/DeepCopy/String/SetExternalLookup) on a growing forest of <=12 live scopes, names from {a,b,c,m,\"\",int64,bool,e,a.b,x.y.z,.}, values unique per step (int64, string, nil, addressable int64, a live scope as module alias), three map-backed external lookups; after every call result and the state of every live scope are compared with a dictionary-chain model; non-trivial = >=6 executed calls addressing/creating >=3 scopes and a delete/copy/module/path call after a successful define in a non-root scope; distinct by history")
 	h.Run(c, "history", c.N(6000, 60000), gen, oracle)
+	c.Rule("sub-check 'shadowed': scripted histories - a module bound in an outer scope, a plain value / nil / nil scope pointer (or nothing) of the same name in a scope between, members of the module that are plain values, nil scope pointers or modules - followed by path lookups of length 1-3 from the scopes below and a short random tail; same oracle")
+	h.Run(c, "shadowed", c.N(3000, 30000), genShadowed, oracle)
 	c.Rule("sub-check 'modules': same oracle and non-triviality rule, op mix concentrated on NewModule/GetEnvFromPath/Define/Delete/DeleteGlobal/Set/Copy/DeepCopy over the names {a,b,m,c,e,\"\",a.b} so that module paths of length 2 and 3 resolve often")
 	h.Run(c, "modules", c.N(1500, 15000), genModules, oracle)
 }
